@@ -44,15 +44,25 @@ def hist_stats(res: Result, hist, run: pipe.Run):
 
 def execute(hist, cfg, init_tree=None, before_close=None):
     recursive, full, kind = cfg
+    from harness import gated
     run = pipe.Run(recursive=recursive, full=full, path_kind=kind, init_tree=init_tree)
     extra = None
+    case = None
+    run.hang = None
     try:
-        run.execute(hist)
-        if before_close:
-            extra = before_close(run)
+        try:
+            run.execute(hist)
+            if before_close:
+                extra = before_close(run)
+        except gated.Hang as e:
+            run.hang = str(e)          # a library thread (or the queue's task accounting) got stuck: a failure with this history
         case = run.model_case()
     finally:
-        stopped = run.close()
+        try:
+            stopped = run.close()
+        except gated.Hang as e:
+            run.hang = run.hang or str(e)
+            stopped = False
     return run, case, stopped, extra
 
 
@@ -77,6 +87,12 @@ def check_model(res: Result, prop, batch):
     """batch: list of (meta, run, case). Lock-step comparison with the extracted model."""
     outs = core.run_model("pipeline", [c for _, _, c in batch])
     for (meta, run, _), o in zip(batch, outs):
+        if getattr(run, "hang", None):
+            res.hist("model_scope", "skipped: the run got stuck (reported as a failure)")
+            continue
+        if getattr(run, "lagged", False):
+            res.hist("model_scope", "oracle only: dispatcher held back (events collected at release)")
+            continue
         if run.g.file_watch:
             res.hist("model_scope", "skipped: watch on a non-directory (name of a directory re-used by a file before the read)")
             continue
@@ -95,6 +111,9 @@ def thread_failures(run: pipe.Run, stopped, meta, prop, sig_extra=None):
         out.append(Failure(what=f"a library thread died with an unhandled error: {name}: {exc}", case=meta,
                            signature={"law": "thread-died", "exception": exc.split("(")[0], **(sig_extra or {})},
                            observed=exc, expected="no unhandled error in any library thread"))
+    if getattr(run, "hang", None):
+        out.append(Failure(what="the pipeline got stuck: " + run.hang[:300], case=meta, signature={"law": "hang"},
+                           observed=run.hang[:300], expected="every step completes"))
     if not stopped:
         out.append(Failure(what="observer.stop()+join() did not terminate the observer", case=meta,
                            signature={"law": "stop-hangs"}, observed="alive", expected="stopped"))
